@@ -88,4 +88,86 @@ def docNoDupM : List (String × Doc) → Bool
   | (_, v) :: ms => docNoDup v && docNoDupM ms
 end
 
+/-! ### serialising back (`serde_json::to_value(&from_str::<T>(d)?)`)
+
+What the derived `Serialize` writes for the value the derived `Deserialize` read: a struct writes
+every field in declaration order (an `Option` field that was absent is written as `null`; members the
+struct does not know are gone), sequences element by element, scalars as they were read (numbers as
+`f64`: the lexical form may change, which `backEq` ignores). -/
+
+def optMapDocs (f : Doc → Option Doc) : List Doc → Option (List Doc)
+  | [] => some []
+  | x :: xs =>
+    match f x, optMapDocs f xs with
+    | some y, some ys => some (y :: ys)
+    | _, _ => none
+
+mutual
+def serdeBack : Shape → Doc → Option Doc
+  | .null, d => if d.isNull then some .null else none
+  | .bool o, d => match d with | .bool b => some (.bool b) | .null => if o then some .null else none | _ => none
+  | .number o, d => match d with | .num x => some (.num x) | .null => if o then some .null else none | _ => none
+  | .string o, d => match d with | .str x => some (.str x) | .null => if o then some .null else none | _ => none
+  | .array t o, d =>
+    match d with
+    | .arr xs => (optMapDocs (fun x => serdeBack t x) xs).map Doc.arr
+    | .null => if o then some .null else none
+    | _ => none
+  | .tuple es o, d =>
+    match d with
+    | .arr xs => (serdeBackZip es xs).map Doc.arr
+    | .null => if o then some .null else none
+    | _ => none
+  | .object c o, d =>
+    match d with
+    | .obj ms => if c.isEmpty then none else (serdeBackFields c ms).map Doc.obj
+    | .null => if o || c.isEmpty then some .null else none
+    | _ => none
+  | .oneOf _ o, d => if o && d.isNull then some .null else none
+termination_by structural s => s
+def serdeBackZip : List Shape → List Doc → Option (List Doc)
+  | [], [] => some []
+  | e :: es, x :: xs =>
+    match serdeBack e x, serdeBackZip es xs with
+    | some y, some ys => some (y :: ys)
+    | _, _ => none
+  | _, _ => none
+termination_by structural es => es
+def serdeBackFields : Members → List (String × Doc) → Option (List (String × Doc))
+  | [], _ => some []
+  | (k, s) :: c, ms =>
+    match (match getDocMember k ms with
+           | some v => serdeBack s v
+           | none => if s.isOptional && !s.isNull then some .null else none),
+          serdeBackFields c ms with
+    | some w, some rest => some ((k, w) :: rest)
+    | _, _ => none
+termination_by structural c => c
+end
+
+def hasDocMember (k : String) (ms : List (String × Doc)) : Bool := ms.any fun kv => kv.1 == k
+
+mutual
+/-- `back` equals `src` up to number formatting, member order and explicit nulls for members that are
+absent from `src` -/
+def backEq : Doc → Doc → Bool
+  | .null, b => b.isNull
+  | .bool x, b => match b with | .bool y => x == y | _ => false
+  | .num _, b => match b with | .num _ => true | _ => false
+  | .str x, b => match b with | .str y => x == y | _ => false
+  | .arr xs, b => match b with | .arr ys => backEqL xs ys | _ => false
+  | .obj ms, b =>
+    match b with
+    | .obj bs => backEqM ms bs && bs.all (fun kw => hasDocMember kw.1 ms || kw.2.isNull)
+    | _ => false
+def backEqL : List Doc → List Doc → Bool
+  | [], ys => ys.isEmpty
+  | x :: xs, ys => match ys with | y :: ys' => backEq x y && backEqL xs ys' | [] => false
+/-- every member of the source is in `bs` with an equal value -/
+def backEqM : List (String × Doc) → List (String × Doc) → Bool
+  | [], _ => true
+  | (k, v) :: ms, bs =>
+    (match getDocMember k bs with | some w => backEq v w | none => false) && backEqM ms bs
+end
+
 end ShapeVerif
